@@ -234,6 +234,12 @@ impl<P: MalachiteCtxParams> Ctx for MalachiteCtx<P> {
         NaturalX::new(num)
     }
     fn rnd_plaintext(&self) -> Self::P {
+        #[cfg(strand_verif)]
+        {
+            if let Some(b) = crate::verif_hooks::take_exp_bytes() {
+                return NaturalP(verif::natural_from_be(&b));
+            }
+        }
         // the plaintext space is 0..=q-2: q-1 cannot be encoded
         let seed = Self::get_seed();
         let two: Natural = Natural::from(2u8);
